@@ -24,6 +24,7 @@
   Core Lean only: linked into `vfdriver`.
 -/
 import Corerad.Basic
+import Corerad.Gen.Plugin
 import Corerad.Model.Wild
 
 namespace Corerad.Model.Addresser
@@ -114,6 +115,9 @@ structure RouteMsg where
   oif : Nat := 1
   /-- `rm.Attributes.Pref` (`*uint8`) -/
   pref : Option Nat := none
+  /-- the message carries no `RTA_DST` attribute (`len(rm.Attributes.Dst) == 0`): the kernel
+      omits it for a route with `dst_len == 0`, i.e. the default route -/
+  dstAbsent : Bool := false
 deriving DecidableEq, Repr, Inhabited
 
 /-- `system.Route` -/
@@ -150,6 +154,23 @@ def routesByIndex (msgs : List RouteMsg) (failed : Bool) : Res SysRoute :=
   else match decodeRoutes msgs with
     | none => .panic
     | some rs => .ok rs
+
+/-! ### the default route
+
+  The kernel sends no `RTA_DST` for a route whose destination length is 0 (`default`,
+  `unreachable default`, …): the destination is then `::`. `handled` records whether the source
+  treats such a message so (regenerated: `Gen.Plugin.routeDefaultWithoutDst`); the pinned tree did
+  not and ran into its own invariant check (`panicf`) — finding F-18. -/
+
+def v6Unspecified : IP := { valid := true, v4 := false, val := 0 }
+
+/-- what the source makes of the destination before the invariant check -/
+def normRoute (handled : Bool) (m : RouteMsg) : RouteMsg :=
+  if handled && m.dstAbsent && m.dlen == 0 then { m with dst := v6Unspecified, dstAbsent := false } else m
+
+/-- `routesByIndex` as the source has it -/
+def routesByIndexSrc (msgs : List RouteMsg) (failed : Bool) : Res SysRoute :=
+  routesByIndex (msgs.map (normRoute Gen.Plugin.routeDefaultWithoutDst)) failed
 
 /-! ### what the plugins make of a dump (composition with Model/Wild.lean)
 
